@@ -177,6 +177,15 @@ impl Transition {
         cycle.get_vec()[successor_position]
     }
 
+    /// verification hook: the private lookup table and the list of reusable empty cycles
+    #[cfg(rssched_verif)]
+    pub fn verif_lookup_and_empties(&self) -> (Vec<(VehicleIdx, CycleIdx)>, Vec<CycleIdx>) {
+        (
+            self.cycle_lookup.iter().map(|(v, c)| (*v, *c)).collect(),
+            self.empty_cycles.clone(),
+        )
+    }
+
     pub fn number_of_cycles(&self) -> usize {
         self.cycles.len()
     }
